@@ -9,7 +9,7 @@ Two ties, both on every run:
            1-8 background jobs of several shapes and durations, foreground commands in between, CPU sets
            {0}, {0,1}, all; a log file shows what had happened when `wait` returned.
 """
-import itertools, os, shutil, subprocess
+import itertools, os, shutil, subprocess, time
 from concurrent.futures import ThreadPoolExecutor
 from vlib import core
 
@@ -29,6 +29,9 @@ ASSUMPTIONS = ["process-level durations are sleeps of 0-0.2 s on a loaded machin
 # ([add_fixed]); a duplicate number or a second previous mark is a plain violation again.
 KF_ID = None
 KF_PREV = None
+KF_WAIT_ERR = "KF-C17-wait-error-abort"
+KF_WAIT_STATUS = "KF-C17-wait-status"
+KF_KILL = "KF-C17-kill-jobspec"
 _SESSIONS = []
 
 
@@ -70,7 +73,7 @@ def run_session(cmd, timeout, env, cwd, input=None):
 def gen_api(ctx):
     rng = ctx.rng
     cases = []
-    alpha = ["A", "F1", "F2", "P", "W", "J1", "J2"]
+    alpha = ["A", "F1", "F2", "P", "W", "J1", "J2", "E"]
     depth = 4 if ctx.quick else 5
     for d in range(0, depth):
         for seq in itertools.product(alpha, repeat=d):
@@ -86,17 +89,43 @@ def gen_api(ctx):
                 seq.append("F%d" % rng.randrange(1, 7))
             elif r < 0.85:
                 seq.append("P")
-            elif r < 0.93:
+            elif r < 0.90:
                 seq.append("J%d" % rng.randrange(1, 5))
+            elif r < 0.95:
+                k = rng.randrange(1, 4)
+                seq.append("M:" + ",".join(rng.choice(["1", "2", "3", "4", "7", "+", "-"]) for _ in range(k)))
             else:
                 seq.append("W")
+        if rng.random() < 0.25:      # one of the launches is a job that ends with an expansion error
+            idx = [i for i, o in enumerate(seq) if o == "A"]
+            if idx:
+                seq[rng.choice(idx)] = "E"
         cases.append(seq)
+    # job specs with HOLES in the table: n launches, a non-suffix subset finishes and is polled away, then
+    # `wait %spec...` for live numbers, reaped numbers, numbers that never existed, %+ and %-, alone and mixed
+    for n in (2, 3, 4):
+        for gone in itertools.chain.from_iterable(itertools.combinations(range(1, n + 1), k) for k in range(1, n)):
+            if gone == tuple(range(n - len(gone) + 1, n + 1)):
+                continue            # a suffix leaves no hole
+            alive = [i for i in range(1, n + 1) if i not in gone]
+            base = ["A"] * n + ["F%d" % g for g in gone] + ["P"]
+            for a in alive:
+                cases.append(base + ["J%d" % a])
+            cases.append(base + ["J%d" % gone[0], "W"])
+            cases.append(base + ["M:%d,%d" % (gone[0], alive[-1])])
+            cases.append(base + ["M:7,+"])
+            cases.append(base + ["M:-,%d" % alive[0], "P", "A", "J%d" % (n + 1)])
+            cases.append(base + ["A", "M:%d,%d,+" % (alive[0], n + 1), "P"])
+    for pre in (["E", "A"], ["A", "E", "A"], ["E"], ["A", "E"]):
+        cases.append(pre + ["W"])
+        cases.append(pre + ["J1", "W"])
+        cases.append(pre + ["F1", "P", "W"])
     # keep F only for tasks that exist and are not yet released (the harness ignores others; the model would not)
     out = []
     for seq in cases:
         fresh, rel, ok = 1, set(), []
         for o in seq:
-            if o == "A":
+            if o in ("A", "E"):
                 fresh += 1
                 ok.append(o)
             elif o[0] == "F":
@@ -119,6 +148,11 @@ def fields(seq, variant):
     for o in seq:
         if o[0] in "FJ":
             f += [o[0], o[1:]]
+        elif o[0] == "M":
+            sp = o[2:].split(",")
+            f += ["M", str(len(sp))] + sp
+        elif o == "E" and variant != "impl":
+            f.append("E")
         else:
             f.append(o)
     return f
@@ -139,15 +173,27 @@ def oracle(seq, outs):
     fresh = 1
     canonical = True
     prev_tab = []
-    if len(outs) != len(seq):
+    errs = set()         # creation indices of jobs that end with an expansion error (class of KF-C17-wait-error-abort)
+    tainted = False      # a wait was aborted by such a job: the rest of the sequence runs on a table the oracle cannot follow
+    if len(outs) != len(seq) and not any("!timeout" in x for x in outs):
         return [("the code produced %d table lines for %d ops: %r" % (len(outs), len(seq), outs[-1:]), None)]
     for o, line in zip(seq, outs):
         body = line.split("|", 1)[1] if "|" in line else line
+        nbad = len(bad)
+        if "!timeout" in line:
+            bad.append(("%s never returned within the harness budget (4 s) although every task it has to wait for had been "
+                        "let finish: it waits for the wrong job or for nothing that will ever happen: %s" % (o, line), None))
+            return bad
         if "!" in line:
-            bad.append(("%s: %s" % (o, line), None))
+            in_cls = bool(errs & set(live)) and (o == "W" or o[0] in "JM") and "!err" in line
+            if in_cls:
+                tainted = True
+            bad.append(("%s: %s" % (o, line), KF_WAIT_ERR if (in_cls or tainted) else None))
         tab = parse_table(body)
         idsv = [x[0] for x in tab]
-        if o == "A":
+        if o == "E":
+            errs.add(fresh)
+        if o in ("A", "E"):
             # class of KF-C17-two-previous: the launch demotes a current job while a previous one exists, or the
             # table already carries two previous marks from such a launch
             both = (any(x[1] == "-" for x in prev_tab) and any(x[1] == "+" for x in prev_tab)) or \
@@ -184,25 +230,41 @@ def oracle(seq, outs):
                 bad.append(("table not empty after wait_all: %s" % body, None))
             rel |= set(range(1, fresh))
             live, done_mark, canonical = [], set(), True
-        elif o[0] == "J":
-            jid_ = int(o[1:])
-            for pos, x in enumerate(prev_tab):
-                if x[0] == jid_:
-                    if pos < len(live):
-                        done_mark.add(live[pos])
-                        rel.add(live[pos])
-                    break
+        elif o[0] in "JM":
+            specs = [o[1:]] if o[0] == "J" else o[2:].split(",")
+            want_st = 0
+            for sp in specs:
+                pos = None
+                for k_, x in enumerate(prev_tab):
+                    if (sp == "+" and x[1] == "+") or (sp == "-" and x[1] == "-") or (sp.isdigit() and x[0] == int(sp)):
+                        pos = k_
+                        break
+                if pos is None:
+                    want_st = 1
+                elif pos < len(live):
+                    if live[pos] in errs and pos < len(tab) and tab[pos][2] != "D":
+                        # waiting for a job that ends with an error left it unwaited: KF-C17-wait-error-abort
+                        tainted = True
+                        bad.append(("`wait %%%s`: the job ended with an error and was not marked done: %s" % (sp, line), KF_WAIT_ERR))
+                    done_mark.add(live[pos])
+                    rel.add(live[pos])
+            got_st = line.split("|")[0][2:].split("!")[0]
+            if got_st != str(want_st) and "!err" not in line:
+                bad.append(("`wait %s` gave status %s; %s expected (1 iff a spec names no job of the table)" % (
+                    " ".join("%" + x for x in specs), got_st, want_st), None))
         if sum(1 for x in tab if x[1] == "+") > 1:
             bad.append(("two jobs are marked current: %s" % body, None))
         if len(tab) != len(live):
             bad.append(("after %s the table has %d jobs, %d are live" % (o, len(tab), len(live)), None))
+        if tainted:
+            bad[nbad:] = [(w, KF_WAIT_ERR) for w, _ in bad[nbad:]]
         prev_tab = tab
     return bad
 
 
 def eval_api(ctx):
     cases = gen_api(ctx)
-    impl = ctx.impl("c17_jobs", [fields(s, "fix") for s in cases], timeout=1500)
+    impl = ctx.impl("c17_jobs", [fields(s, "fix") for s in cases], timeout=540)
     use_model = ctx.runner is not None
     m_fix = ctx.model("c17_jobs", [fields(s, "fix") for s in cases]) if use_model else None
     m_old = ctx.model("c17_jobs", [fields(s, "cur") for s in cases]) if use_model else None
@@ -214,9 +276,10 @@ def eval_api(ctx):
     # false-alarm discipline (shared, loaded machine): a case that looks wrong is executed once more, alone;
     # only what reproduces is kept. The job table logic is deterministic given the controlled completions.
     suspicious = [k for k, (seq, il) in enumerate(zip(cases, impl))
-                  if oracle(seq, lines_of(il)) or (use_model and il != m_fix[k])]
+                  if any(kn is None for _, kn in oracle(seq, lines_of(il))) or
+                  (use_model and il != m_fix[k] and not any(kn for _, kn in oracle(seq, lines_of(il))))]
     if suspicious and len(suspicious) <= 60:
-        again = ctx.impl("c17_jobs", [fields(cases[k], "fix") for k in suspicious], timeout=1500, shards=2)
+        again = ctx.impl("c17_jobs", [fields(cases[k], "fix") for k in suspicious], timeout=540, shards=2)
         for k, il2 in zip(suspicious, again):
             if il2 != impl[k]:
                 ctx.notes.append("api case %d gave a different table on repetition: %r / %r" % (k, impl[k][:120], il2[:120]))
@@ -225,12 +288,16 @@ def eval_api(ctx):
     n_diff = 0
     for k, (seq, il) in enumerate(zip(cases, impl)):
         outs = lines_of(il)
-        for why, known in oracle(seq, outs):
-            specv.append({"input": {"ops": seq}, "why": why, "code": outs})
+        issues = oracle(seq, outs)
+        for why, known in issues:
+            v = {"input": {"ops": seq}, "why": why, "code": outs}
+            if known:
+                v["known"] = known
+            specv.append(v)
         if use_model:
             if m_old[k] != m_fix[k]:
                 n_diff += 1
-            if il != m_fix[k]:
+            if il != m_fix[k] and not any(kn == KF_WAIT_ERR for _, kn in issues):
                 mism.append({"ops": seq, "code": outs, "model": core.dec_line(m_fix[k])})
     return cases, m_fix, mism, specv, {"api_cases": len(cases), "cases_where_the_old_numbering_differs": n_diff,
                                        "model": "repaired numbering (max id + 1, one previous)"}
@@ -364,6 +431,73 @@ def witness(ctx, d):
         return None
 
 
+# ---- directed process-level scenarios on the stdin front-end (which reaps finished jobs before each command):
+# job specs with a HOLE in the table, unresolved specs mixed with live ones, erroring jobs, kill %N.
+# (name, script with %(L)s = log file, ordering constraints "x<y" on the log, known-finding id for a status/ordering deviation)
+JOBSPEC_SCENARIOS = [
+    ("wait-%2-after-hole", "{ sleep 0.1; echo a >> %(L)s; } &\n{ sleep 1.2; echo b >> %(L)s; } &\nsleep 0.5\nwait %%2\necho \"w s=$?\" >> %(L)s\nwait\n", ["a<w", "b<w"]),
+    ("wait-%1-%2-hole", "{ sleep 0.1; echo a >> %(L)s; } &\n{ sleep 1.2; echo b >> %(L)s; } &\nsleep 0.5\nwait %%1 %%2\necho \"w s=$?\" >> %(L)s\nwait\n", ["a<w", "b<w"]),
+    ("wait-%7-%+", "{ sleep 0.6; echo c >> %(L)s; } &\nwait %%7 %%+\necho \"w s=$?\" >> %(L)s\nwait\n", ["c<w"]),
+    ("wait-%3-middle-gone", "{ sleep 0.9; echo a >> %(L)s; } &\n{ sleep 0.1; echo b >> %(L)s; } &\n{ sleep 1.3; echo c >> %(L)s; } &\nsleep 0.5\nwait %%3 %%1\necho \"w s=$?\" >> %(L)s\nwait\n", ["a<w", "c<w", "b<w"]),
+    ("wait-%--with-hole", "{ sleep 0.1; echo a >> %(L)s; } &\n{ sleep 1.0; echo b >> %(L)s; } &\n{ sleep 0.7; echo c >> %(L)s; } &\nsleep 0.4\nwait %%-\necho \"w s=$?\" >> %(L)s\nwait\necho \"x s=$?\" >> %(L)s\n", ["b<w", "c<x"]),
+    ("wait-status-per-spec", "(sleep 0.2; exit 3) &\n(sleep 0.3; exit 4) &\nwait %%1\necho \"w s=$?\" >> %(L)s\nwait %%2\necho \"x s=$?\" >> %(L)s\nwait %%9\necho \"y s=$?\" >> %(L)s\n", []),
+    ("erroring-job-then-wait", "{ : ${nope_such:?gone}; } &\n{ sleep 0.6; echo b >> %(L)s; } &\nwait\necho \"w s=$?\" >> %(L)s\n", ["b<w"]),
+    ("erroring-jobs-c", "-c:{ echo $((1/0)); } & { readonly r=1; r=2; } & { sleep 0.5; echo b >> %(L)s; } & wait; echo \"w s=$?\" >> %(L)s", ["b<w"]),
+    ("kill-%1", "sleep 5 &\n{ sleep 0.3; echo b >> %(L)s; } &\nkill %%1\necho \"k s=$?\" >> %(L)s\nwait\necho \"w s=$?\" >> %(L)s\n", ["b<w"]),
+]
+
+
+def run_jobspec(ctx, binary, args, script, d, tag):
+    log = os.path.join(d, "js_%s" % tag)
+    if os.path.exists(log):
+        os.remove(log)
+    env = {"PATH": "/usr/bin:/bin", "HOME": d, "LC_ALL": "C"}
+    t0 = time.time()
+    if script.startswith("-c:"):
+        hung = run_session([binary] + args + ["-c", script[3:] % {"L": log}], 60, env, d)
+    else:
+        hung = run_session([binary] + args, 60, env, d, input=(script % {"L": log}).encode())
+    try:
+        lines = open(log).read().split("\n")
+    except OSError:
+        lines = []
+    return {"hung": hung, "log": [l for l in lines if l], "t": time.time() - t0}
+
+
+def eval_jobspec(ctx, d):
+    """verdict: ordering constraints (wait really waited) are absolute; statuses and the rest are compared with bash"""
+    specv, res = [], []
+    for name, script, order in JOBSPEC_SCENARIOS:
+        c = run_jobspec(ctx, ctx.vbrush, ["--norc", "--noprofile", "--no-config"], script, d, "c_" + name)
+        b = run_jobspec(ctx, "/usr/bin/bash", ["--norc", "--noprofile"], script, d, "b_" + name)
+        words = [l.split()[0] for l in c["log"]]
+        why = []
+        if c["hung"]:
+            why.append(("the shell did not finish within 60 s (bash %.1fs)" % b["t"], None))
+        for con in order:
+            x, y = con.split("<")
+            if y in words and (x not in words or words.index(x) > words.index(y)):
+                kn = KF_WAIT_ERR if name.startswith("erroring") else None
+                why.append(("`wait` returned before the job writing %r had finished: log %r" % (x, c["log"]), kn))
+            if y not in words:
+                kn = KF_WAIT_ERR if name.startswith("erroring") else None
+                why.append(("the command after `wait` never ran: log %r" % (c["log"],), kn))
+        cst = [l for l in c["log"] if " s=" in l]
+        bst = [l for l in b["log"] if " s=" in l]
+        if cst != bst and not why:
+            kn = KF_KILL if name.startswith("kill") else (KF_WAIT_STATUS if ("wait" in name or name.startswith("erroring")) else None)
+            why.append(("statuses after wait/kill %r, bash %r" % (cst, bst), kn))
+        if name.startswith("kill") and sorted(c["log"]) != sorted(b["log"]) and not why:
+            why.append(("log %r, bash %r" % (c["log"], b["log"]), KF_KILL))
+        res.append({"name": name, "ok": not why})
+        for w, kn in why:
+            v = {"input": {"scenario": name, "stdin": script % {"L": "$LOG"} if not script.startswith("-c:") else script}, "why": w}
+            if kn:
+                v["known"] = kn
+            specv.append(v)
+    return res, specv
+
+
 def eval_proc(ctx):
     d = os.path.join(core.SCRATCH, "c17-%d" % os.getpid())
     os.makedirs(d, exist_ok=True)
@@ -384,6 +518,8 @@ def eval_proc(ctx):
                 if known:
                     v["known"] = known
                 specv.append(v)
+        js_res, js_specv = eval_jobspec(ctx, d)
+        specv += js_specv
         w = witness(ctx, d)
         wdup = None
         if w is not None:
@@ -391,7 +527,9 @@ def eval_proc(ctx):
             wdup = len(set(nums)) != len(nums)
             if wdup:
                 specv.append({"input": {"stdin": WITNESS % {"d": "$D"}}, "why": "`jobs` lists a job number twice: %r" % w})
-        return cases, specv, {"proc_cases": len(cases), "witness_duplicate_at_stdin_front_end": wdup,
+        return cases, specv, {"proc_cases": len(cases), "jobspec_scenarios": js_res,
+                              "proof_backed": "api op sequences (model + theorems + correspondence) incl. `wait %spec...` resolution with holes",
+                              "differential_only": "process-level runs: log ordering rules (absolute) and statuses vs bash", "witness_duplicate_at_stdin_front_end": wdup,
                               "proc_modes": {m: sum(1 for c in cases if c["mode"] == m) for m in ("stdin", "c")},
                               "proc_cpus": {str(m): sum(1 for c in cases if c["cpus"] == m) for m in (None, "0", "0,1")}}
     finally:
@@ -440,7 +578,7 @@ def search(ctx, res):
         cases = gen_api(ctx)[-1500:]
     finally:
         ctx.rng, ctx.quick = old, q
-    impl = ctx.impl("c17_jobs", [fields(s, "fix") for s in cases], timeout=1500)
+    impl = ctx.impl("c17_jobs", [fields(s, "fix") for s in cases], timeout=540)
     specv = []
     for seq, il in zip(cases, impl):
         outs = core.dec_line(il) if not il.startswith(("PANIC", "DIED", "TIMEOUT")) else [il]
